@@ -92,4 +92,42 @@ theorem processLines_single_error (envAt : Nat → Env) (p : Proto) (l : Bytes)
     unfold processLines
     split <;> simp [Proto.close, sends_append, sends]
 
+theorem handle_moves_on {env : Env} {a : Auth} {l m : Bytes} {rest : List Bytes} (ho : a.authOrder = m :: rest)
+    (hc : (splitCmd l).1 = cREJECTED ∨ ((splitCmd l).1 = cERROR ∧ a.negotiating = false)) :
+    handleAuthMessage env a l =
+      .ok ({ a with authOrder := rest, authMech := some m, negotiating := false }, [authLine env m]) := by
+  unfold handleAuthMessage
+  simp only
+  rcases hc with hc | ⟨hc, hn⟩
+  · simp [hc, authREJECTED, authTryNextMethod, ho]
+  · have h1 : ¬ (splitCmd l).1 = cREJECTED := by rw [hc]; decide
+    have h2 : ¬ (splitCmd l).1 = cOK := by rw [hc]; decide
+    have h3 : ¬ (splitCmd l).1 = cAGREE := by rw [hc]; decide
+    have h4 : ¬ (splitCmd l).1 = cDATA := by rw [hc]; decide
+    rw [if_neg h1, if_neg h2, if_neg h3, if_neg h4, if_pos hc]
+    simp [authERROR, hn, authTryNextMethod, ho]
+
+/-- REJECTED, or ERROR outside the descriptor negotiation, while a mechanism is left: the connection stays
+open and exactly the AUTH line of the next mechanism of the list is written. -/
+theorem processLines_moves_on (envAt : Nat → Env) (p : Proto) (l m : Bytes) (rest : List Bytes)
+    (hd : p.disconnecting = false) (ha : p.authenticated = false) (haa : p.auth.authenticated = false)
+    (hlen : l.length ≤ maxAuth) (hbuf : p.buffer.length ≤ maxAuth + 1)
+    (ho : p.auth.authOrder = m :: rest)
+    (hc : (splitCmd l).1 = cREJECTED ∨ ((splitCmd l).1 = cERROR ∧ p.auth.negotiating = false)) :
+    let p' := processLines envAt p [l]
+    p'.disconnecting = false ∧ p'.authenticated = false ∧
+      sends p'.trace = sends p.trace ++ [authLine (envAt p.seen) m] ∧
+      p'.auth.authOrder = rest ∧ p'.auth.authMech = some m := by
+  obtain ⟨auth, buffer, disc, authd, binary, seen, trace⟩ := p
+  simp only at hd ha haa ho hc hbuf
+  subst hd ha
+  simp only
+  unfold processLines
+  have h1 : ¬ l.length > maxAuth := by omega
+  simp only [Bool.false_eq_true, if_false, h1, handle_moves_on ho hc, haa]
+  unfold processLines
+  have h2 : ¬ buffer.length > maxAuth + CRLF.length - 1 := by
+    simp only [CRLF, List.length_cons, List.length_nil]; omega
+  simp [h2, sends_append, sends]
+
 end Txdbus.AuthClient
